@@ -591,6 +591,8 @@ func (rt *runtimeS) step(st Step) {
 		for i := 0; i < n; i++ {
 			rt.calls[st.C].recvQ <- cop{st.Op, ""}
 		}
+	case "ccclose": // ClientConn.Close(): reports to the stats handlers; calls and streams in flight are not its business
+		rt.clis[conn].cc.Close()
 	case "cancel":
 		cl := rt.calls[st.C]
 		tr.emit(cl.base("Cancel"))
